@@ -183,6 +183,58 @@ Proof. vm_compute. reflexivity. Qed.
 Example C03_bad_parent_ids_still_safe :
   all_safe cfg0 w_badparent (view_of_model cfg0 w_badparent e0 (CUmount [] true) []) = true.
 Proof. vm_compute. reflexivity. Qed.
+(* R8 (known finding 1, round 5): a mount below a build root that a LATER mount on one of its
+   ancestor directories covers -- import at build/var/db/repos, then a tmpfs on build/var/db.
+   The table is well formed in every other respect (unique ids, parent ids), only [nocov] fails.
+   layercake unmounts in descending path order: umount(2) of the covered mountpoint comes first
+   and fails (Kernel.v: hidden_at), the command stops, nothing has changed.  umount -all: the
+   predicate is false (the idle layer a is still mounted); umount a: the predicate holds (a
+   failed single umount promises nothing).  In the other order -- cover first -- both calls
+   succeed: the failure is one of ordering. *)
+Definition w_cov : wobs :=
+  MkWO (base_fs ++ layer_fs "a" [])
+       (MkKS [rootline; line "21" "20" "/b/layers/a/build/var/db/repos" "ext4" "/dev/sdb" rw;
+              line "22" "20" "/b/layers/a/build/var/db" "tmpfs" "tmpfs" rw] 40 5).
+Definition step_of_model (cfg : cfgT) (w : wobs) (e : env) (cmd : command) (um : users_map) : step :=
+  let r := run e cfg um cmd (world_of w) in
+  let st := snd r in
+  MkStep e cmd um (rclass_of (fst r)) (rev (s_log st)) (MkDelta (map fst (wo_fs w)) (w_fs (s_w st)))
+         (ks_tab (w_ks (s_w st))) (ks_nextid (w_ks (s_w st))) (ks_nextdev (w_ks (s_w st)))
+         (match fst r with Ret (Some ld) => Some (map lobs_of (ld_map ld)) | _ => None end).
+Definition c_cov : LC.case := MkCase cfg0 (wo_fs w_cov) (wo_ks w_cov) [step_of_model cfg0 w_cov e0 (CUmount [] true) []].
+Definition c_cov_single : LC.case :=
+  MkCase cfg0 (wo_fs w_cov) (wo_ks w_cov) [step_of_model cfg0 w_cov e0 (CUmount (bs "a") false) []].
+Example C03_refuted_1_witness :
+  let v := view_of_model cfg0 w_cov e0 (CUmount [] true) [] in
+  C03.wf c_cov = true /\ LC.corr c_cov = true /\ C03.kf c_cov = 1%N /\ C03.spec c_cov = false
+  /\ c03 cfg0 w_cov (CUmount [] true) [] = false
+  /\ v_res v = RFail
+  /\ umount_targets (syscalls (v_log v)) = [bs "/b/layers/a/build/var/db/repos"]
+  /\ ktab_beq (ks_tab (wo_ks (v_after v))) (ks_tab (wo_ks w_cov)) = true
+  /\ all_safe cfg0 w_cov v = true
+  /\ C03_all_safe_hyp cfg0 w_cov = true /\ pwf (ks_tab (wo_ks w_cov)) = true
+  /\ uok cfg0 (layers_on_disk cfg0 (wo_fs w_cov)) (ks_tab (wo_ks w_cov)) = false
+  /\ (let '(ok, ks', _) := ku_seq (wo_ks w_cov) [bs "/b/layers/a/build/var/db"; bs "/b/layers/a/build/var/db/repos"]
+      in ok && ktab_beq (ks_tab ks') [rootline]) = true.
+Proof. vm_compute. repeat split; reflexivity. Qed.
+Example covered_single_umount_fails_and_holds :
+  let v := view_of_model cfg0 w_cov e0 (CUmount (bs "a") false) [] in
+  C03.wf c_cov_single = true /\ LC.corr c_cov_single = true /\ C03.kf c_cov_single = 0%N
+  /\ C03.spec c_cov_single = true /\ v_res v = RFail
+  /\ ktab_beq (ks_tab (wo_ks (v_after v))) (ks_tab (wo_ks w_cov)) = true.
+Proof. vm_compute. repeat split; reflexivity. Qed.
+(* a success that leaves the covered mount behind -- what code that ignores the failing call
+   reports -- is rejected by the predicate (kf = 0: no known finding covers it) *)
+Definition bad_single_step : step :=
+  MkStep e0 (CUmount (bs "a") false) [] ROk
+         [OUmount (bs "/b/layers/a/build/var/db/repos") 0; OUmount (bs "/b/layers/a/build/var/db") 0]
+         (MkDelta [] [])
+         [rootline; line "21" "20" "/b/layers/a/build/var/db/repos" "ext4" "/dev/sdb" rw] 40 5 None.
+Definition c_cov_bad : LC.case := MkCase cfg0 (wo_fs w_cov) (wo_ks w_cov) [bad_single_step].
+Example covered_left_behind_rejected :
+  C03.wf c_cov_bad = true /\ C03.kf c_cov_bad = 0%N /\ C03.spec c_cov_bad = false.
+Proof. vm_compute. repeat split; reflexivity. Qed.
+
 (* with the build root "/" every host mount counts as the layer's for the property, none for
    GetMountAndSubmounts: remove goes ahead *)
 Definition w_rootbld2 : wobs :=
